@@ -9,8 +9,8 @@ for d in seeded/C*/; do
   res=$(tools/try_mutant.sh $d/patch.diff $prop 2>&1)
   rc=$(echo "$res" | grep -o 'exit=[0-9]*' | tail -1)
   if echo "$res" | grep -q "patch does not apply"; then verdict="patch-does-not-apply"; 
-  elif echo "$res" | grep -q "VIOLATION.*no-failing-input-found"; then verdict="caught:obligation-only";
-  elif echo "$res" | grep -q "VIOLATION"; then verdict="caught:failing-input";
+  elif echo "$res" | grep "VIOLATION" | grep -qv "no-failing-input-found"; then verdict="caught:failing-input";
+  elif echo "$res" | grep -q "VIOLATION"; then verdict="caught:obligation-only";
   else verdict="MISSED"; fi
   orc=$(for r in $(echo "$res" | grep -o 'replay=[^ ]*' | cut -d= -f2); do python3 -c "import json,sys;print(json.load(open('$r')).get('oracle','obligation'))" 2>/dev/null; done | sort -u | tr '\n' ',' )
   echo "$id	$prop	$rc	$verdict	$orc" >> $out
